@@ -485,13 +485,13 @@ theorem push_invP (s : St) (p : Nat → Int) (nb : RObj) (ev : List Ev) (hI : In
     refine ⟨by simp only [MAXV] at *; omega, by simp [MAXV], fun h => by cases h⟩
   · simp only [hx, ↓reduceIte, Int.add_zero]; exact ⟨h1, h2, h3⟩
 
-theorem relocate_inv (s : St) (h o newcap : Nat) (clear : Bool) (hI : Inv s) (hh : h < s.hnd.length)
-    (ho : s.hnd.getD h none = some o) : Inv (s.relocate h o newcap clear) := by
-  unfold St.relocate
+theorem relocateWith_inv (s : St) (h o newcap : Nat) (clear : Bool) (els : List Nat) (hI : Inv s) (hh : h < s.hnd.length)
+    (ho : s.hnd.getD h none = some o) : Inv (s.relocateWith h o newcap clear els) := by
+  unfold St.relocateWith
   simp only []
   -- step 1: elements cleared or copies logged
   have a : ∃ s1 : St, s1 = (if clear = true then ({ s with objs := s.objs.set o { (s.obj o) with elems := [] } } : St)
-      else { s with elog := s.elog ++ (s.obj o).elems.map ElEv.copy }) ∧ InvP s1 (fun _ => 0) ∧ s1.hnd = s.hnd ∧
+      else { s with elog := s.elog ++ els.map ElEv.copy }) ∧ InvP s1 (fun _ => 0) ∧ s1.hnd = s.hnd ∧
       (s1.obj o).count = (s.obj o).count := by
     refine ⟨_, rfl, ?_, ?_, ?_⟩
     · by_cases hc : clear = true
@@ -513,7 +513,7 @@ theorem relocate_inv (s : St) (h o newcap : Nat) (clear : Bool) (hI : Inv s) (hh
     rw [hc1]; omega
   have i2 := unref_invP s1 _ o i1 hp
   have i3 := push_invP (s1.unref o) _
-    { kind := .rbuf, count := 1, alive := true, ext := 0, elems := (s.obj o).elems, cap := newcap }
+    { kind := .rbuf, count := 1, alive := true, ext := 0, elems := els, cap := newcap }
     ((s1.unref o).ev ++ [({} : Ev)]) i2 ⟨rfl, rfl, rfl⟩
   have i4 := sethnd_invP _ _ h (some (s1.unref o).objs.length) i3 (by
     show h < (s1.unref o).hnd.length
@@ -534,6 +534,10 @@ theorem relocate_inv (s : St) (h o newcap : Nat) (clear : Bool) (hI : Inv s) (hh
     · subst e2; simp only [e1, ↓reduceIte]; omega
     · have e2' : ¬ L = x := fun y => e2 y.symm
       simp only [e1, e2, e2', ↓reduceIte]; omega
+
+theorem relocate_inv (s : St) (h o newcap : Nat) (clear : Bool) (hI : Inv s) (hh : h < s.hnd.length)
+    (ho : s.hnd.getD h none = some o) : Inv (s.relocate h o newcap clear) :=
+  relocateWith_inv s h o newcap clear _ hI hh ho
 
 theorem detach_inv (s : St) (h len : Nat) (hI : Inv s) (hh : h < s.hnd.length) : Inv (s.detach h len).1 := by
   unfold St.detach
@@ -558,6 +562,82 @@ theorem detach_refused (s : St) (h len : Nat) (hr : (s.detach h len).2 = false) 
     simp only [ho] at hr ⊢
     (repeat' split at hr) <;> first | (cases hr; done) | skip
     all_goals (repeat' split) <;> first | rfl | simp_all
+
+
+theorem reserve_inv (s : St) (h len : Nat) (hI : Inv s) (hh : h < s.hnd.length) : Inv (s.reserve h len).1 := by
+  unfold St.reserve
+  cases ho : s.hnd.getD h none with
+  | none =>
+    simp only []
+    have a := push_invP s _ { kind := .rbuf, count := 1, alive := true, ext := 0, elems := [], cap := capOf (len * 8) }
+      (s.ev ++ [({} : Ev)]) hI ⟨rfl, rfl, rfl⟩
+    have b := sethnd_invP _ _ h (some s.objs.length) a (by show h < s.hnd.length; exact hh)
+    refine invP_congr _ _ _ b (fun x => ?_)
+    show (0 : Int) + (if x = s.objs.length then 1 else 0) + ind (s.hnd.getD h none) x - ind (some s.objs.length) x = 0
+    rw [ho]
+    generalize s.objs.length = L
+    simp only [ind, reduceCtorEq, ↓reduceIte, Option.some.injEq]
+    by_cases e : x = L
+    · subst e; simp only [↓reduceIte]; omega
+    · have e' : ¬ L = x := fun y => e y.symm
+      simp only [e, e', ↓reduceIte]; omega
+  | some o =>
+    simp only []
+    split
+    · exact relocateWith_inv s h o _ false _ hI hh ho
+    · exact detach_inv s h len hI hh
+
+/-! ### unique_array -/
+
+theorem uaPrivate_inv (s : St) (a : Nat) (hI : Inv s) (hh : a < s.hnd.length) : Inv (s.uaPrivate a).1 := by
+  unfold St.uaPrivate
+  cases ho : s.hnd.getD a none with
+  | none =>
+    simp only []
+    have x := push_invP s _ { kind := .rbuf, count := 1, alive := true, ext := 0, elems := [] }
+      (s.ev ++ [({} : Ev)]) hI ⟨rfl, rfl, rfl⟩
+    have b := sethnd_invP _ _ a (some s.objs.length) x (by show a < s.hnd.length; exact hh)
+    refine invP_congr _ _ _ b (fun x => ?_)
+    show (0 : Int) + (if x = s.objs.length then 1 else 0) + ind (s.hnd.getD a none) x - ind (some s.objs.length) x = 0
+    rw [ho]
+    generalize s.objs.length = L
+    simp only [ind, reduceCtorEq, ↓reduceIte, Option.some.injEq]
+    by_cases e : x = L
+    · subst e; simp only [↓reduceIte]; omega
+    · have e' : ¬ L = x := fun y => e y.symm
+      simp only [e, e', ↓reduceIte]; omega
+  | some b =>
+    simp only []
+    split
+    · split
+      · exact relocateWith_inv s a b _ false _ hI hh ho
+      · exact hI
+    · exact hI
+
+/-- a refused `unique_array<T>::reserve()` leaves everything as it was: the handle still names the buffer -/
+theorem uaPrivate_refused (s : St) (a : Nat) (hr : (s.uaPrivate a).2 = false) : (s.uaPrivate a).1 = s := by
+  unfold St.uaPrivate at hr ⊢
+  cases ho : s.hnd.getD a none with
+  | none => rw [ho] at hr; simp at hr
+  | some b =>
+    simp only [ho] at hr ⊢
+    (repeat' split at hr) <;> first | (cases hr; done) | skip
+    all_goals (repeat' split) <;> first | rfl | simp_all
+
+theorem uaSetLen_inv (s : St) (a n : Nat) (hI : Inv s) : Inv (s.uaSetLen a n) := by
+  unfold St.uaSetLen
+  split
+  · exact hI
+  · rename_i b _
+    refine invP_of_same s _ _ hI rfl ?_
+    intro x
+    have e : ({ s with objs := s.objs.set b { (s.obj b) with elems := List.replicate n 0 } } : St).obj x =
+        if x = b ∧ b < s.objs.length then { (s.obj b) with elems := List.replicate n 0 } else s.obj x := by
+      unfold St.obj; exact getD_set _ _ _ _
+    rw [e]
+    split
+    · rename_i h; rw [h.1]; exact ⟨rfl, rfl, rfl⟩
+    · exact ⟨rfl, rfl, rfl⟩
 
 /-! ### the C++ handle class -/
 
